@@ -149,7 +149,7 @@ def run_coq_cases(terms, fuel_note=''):
     d = tempfile.mkdtemp(prefix='nbv_c13_')
     try:
         lines = ['From Coq Require Import String List NArith ZArith Bool.',
-                 'From NB Require Import Base.Res Base.Json Diff.DiffFormat Diff.Codec Diff.Store Gen.C13Facts.',
+                 'From NB Require Import Base.Res Base.Json Diff.DiffFormat Diff.Codec Diff.Store.',
                  'Import ListNotations.', '']
         for i, (m, e) in enumerate(terms):
             lines.append('Definition c%d : bool := json_eqb %s %s.' % (i, m, e))
@@ -171,7 +171,7 @@ def eval_coq_term(term):
     d = tempfile.mkdtemp(prefix='nbv_c13_')
     try:
         src = ('From Coq Require Import String List NArith ZArith Bool.\n'
-               'From NB Require Import Base.Res Base.Json Diff.DiffFormat Diff.Codec Diff.Store Gen.C13Facts.\nImport ListNotations.\n'
+               'From NB Require Import Base.Res Base.Json Diff.DiffFormat Diff.Codec Diff.Store.\nImport ListNotations.\n'
                'Eval vm_compute in %s.\n' % term)
         f = os.path.join(d, 'C13One.v'); open(f, 'w').write(src)
         p = subprocess.run(['timeout', '300', 'coqc', '-Q', core.COQ, 'NB', f], capture_output=True, text=True, cwd=d)
@@ -327,9 +327,16 @@ def run(tier, seed):
             if res.get('unchanged') != [True, True]:
                 chk.violation('input-modified:patch:' + ('obj' if not res['unchanged'][0] else 'diff'), {'call': 'patch', 'a': t['a'], 'd': t['d']}, res)
         prot = cq_bool(facts.get('dso_restore_protected', False))
+        nested_raises = 0
         for t, res in zip(otasks, ores):
             if 'harness_err' in res: chk.broken_obligation('harness:outputs', res); continue
-            terms.append(('(observe_dso %s %s 40 %s %s)' % (prot, cq_fault(t['fault']), cq_json(t['a']), cq_json(t['b'])), dso_expectation(t, res)))
+            fault = t['fault']
+            if fault is None and 'err' in res and res.get('calls', {}).get('deepcopy') == 2:
+                # a nested differ raised by itself after both restores (e.g. RuntimeError for a JSON mime value changing
+                # from dict to list): same store effect as the model's fault point 2
+                fault = ['diff', 0]; res = dict(res); res.pop('err'); res['fault'] = 'diff'
+                nested_raises += 1
+            terms.append(('(observe_dso %s %s 40 %s %s)' % (prot, cq_fault(fault), cq_json(t['a']), cq_json(t['b'])), dso_expectation(t, res)))
             origin.append(('dso', t, res))
             if t['fault'] is None and 'ok' in res and res.get('unchanged') != [True, True]:
                 chk.violation('input-modified:diff_single_outputs', {'call': 'outputs', 'a': t['a'], 'b': t['b']}, res)
@@ -363,7 +370,7 @@ def run(tier, seed):
                     'non-trivial = the result holds at least one list/dict (aliasing possible) or a renderer was given a non-empty diff/decision list; '
                     'distinct by sha1 of (call, inputs)',
             'input_distribution': hist, 'traces_validated_against_impl': t1, 'model_impl_mismatches': mism,
-            'patch_traces': len(ptasks), 'outputs_traces_incl_fault_points': len(otasks),
+            'patch_traces': len(ptasks), 'outputs_traces_where_nested_differ_raised': nested_raises, 'outputs_traces_incl_fault_points': len(otasks),
             'key_order_changed_calls': reordered, 'calls_raising': exc_count, 'raw_signature_counts': raw_count,
             'source_facts': facts,
             'live_aliasing_theorem': 'patch_result_disjoint_from_diff_refuted' if facts.get('copy_diffvals') is False else 'patch_result_disjoint_from_diff',
